@@ -407,7 +407,10 @@ try:
 except Exception:
     log.add_msg(traceback); raise
 finally:
-    clean up; log.info("CLEANING UP"); write log
+    for scratch_dir in (tmp_result_dir, tmp_dir):
+        try: _clean_up(scratch_dir)
+        except OSError: log.add_msg("could not remove scratch directory")
+    log.info("CLEANING UP"); write log
     output["config"], output["log"], output["metadata"] = ...
     write JSON; blob_to_hdf5
 ``` -/
@@ -450,6 +453,11 @@ structure MappingShape where
   finallyWritesHdf5 : Bool
   /-- no `return` inside `finally` (it would swallow the exception) -/
   finallyHasNoReturn : Bool
+  /-- every `_clean_up(...)` in `finally` that precedes the writing of the log
+  / JSON / HDF5 sits in a `try` with an `except OSError` handler, so a scratch
+  directory that cannot be removed (an orphaned worker still writing into it)
+  cannot pre-empt those writes -/
+  finallyCleanupGuarded : Bool
   /-- in `_run_mapping`: `blob_to_csv` comes after `run_type_assignment_on_h5ad`
   and `output["results"]` is assigned after both -/
   csvAfterAssignment : Bool
@@ -464,7 +472,7 @@ def expectedMappingShape : MappingShape :=
   { outputInitEmpty := true, outputAssignedFromInner := true,
     successLoggedLastInTry := true, exceptReraises := true,
     finallyWritesLog := true, finallyWritesJson := true, finallyWritesHdf5 := true,
-    finallyHasNoReturn := true, csvAfterAssignment := true,
+    finallyHasNoReturn := true, finallyCleanupGuarded := true, csvAfterAssignment := true,
     resultsAfterAssignment := true, hdf5SkipsResults := true,
     hdf5ResultsGuarded := true }
 
